@@ -64,6 +64,12 @@ def strategy(tier):
         # phased = sessions are constructed one after the other, all are initialised before any sends a picture and all are drained before any is
         # torn down (the instances overlap only while encoding: the scenario that is clean on the pinned tree); free-running = generated start offsets
         phased = draw(st.integers(0, 2)) > 0
+        if phased:
+            # long enough that most of the stream lies before the last mini-GOP (differences confined to the tail are a listed finding keyed separately)
+            for x in insts:
+                if x["kind"] == "enc" and x["case"]["cfg"]["enc_mode"] >= 5:
+                    x["case"]["cfg"]["hierarchical_levels"] = draw(st.sampled_from([2, 3]))
+                    x["case"]["frames"] = draw(st.integers(18, 28))
         if phased and draw(st.booleans()):
             # same preset / bit depth / ISA level, different QP and content: nothing process-global differs between the instances
             a, b = insts[0]["case"]["cfg"], insts[1]["case"]["cfg"]
